@@ -95,6 +95,9 @@ def cases(tier):
         if desc[0] in ("K2-shared", "K6-shared-two-depths", "K7-shared-both"):
             if tier == "thorough" or sum(desc[1]) % 7 == 0:
                 out.append((desc, "asc", "name-clash"))
+        # definitions reshaped after they were instanced (ports added last-to-first, in front)
+        if desc[0] in ("K2-shared", "K8-bus", "K10-wire-only-shared") or (tier == "thorough" and desc[0] in ("K6-shared-two-depths",)):
+            out.append((desc, "asc", "late-ports"))
     return out
 
 
